@@ -27,8 +27,10 @@ must be finite and equal the two-sided limit, computed by the reference evaluato
 for an expression with >= 2 singular factors is reported as double-counted; so is a value m x limit (m = 2..6) at the ONLY singular point
 of an expression when the expression is multiplied by the same m at a regular input (one point counted m times).  Sub-kind of a
 singular-point failure: several-singularities when the expression has >= 2 distinct removable points (literal or parameter-valued: the
-territory of the listed sum-of-Conditionals defect), else parameter-valued-point when its only removable point is the value of a
-parameter, else one-singularity.  Non-trivial: k >= 1; distinct by sha1(text,
+territory of the listed sum-of-Conditionals defect); else, when its only removable point is the value of a parameter, the same input is
+tried on the literal twin (the value written in place of the parameter inside that expression: sin(v - 0.13)/(v - 0.13)): twin not
+repaired either -> one-singularity (the numeric-point behaviour), twin repaired -> parameter-valued-point (wrong-limit additionally
+:abs-of-state-at-negative-point when the expression has abs(..state..) and the parameter's value is negative); else one-singularity.  Non-trivial: k >= 1; distinct by sha1(text,
 point)."""
 
 
